@@ -632,3 +632,174 @@ Proof.
   { unfold receivers. apply filter_In. split; assumption. }
   rewrite Hr in H. destruct H as [H|[]]. symmetry. exact H.
 Qed.
+
+(* ------------------------------------------------------------------ completeness of the candidate list:
+   every partition of the six cells into blocks "day type x set of seasons" is offered *)
+Definition shape : Type := (daytype * (bool * bool * bool))%type.
+Definition shape_of (c : comp) : shape :=
+  (fst c, (mem_season SU (snd c), mem_season SH (snd c), mem_season WI (snd c))).
+Definition shape_covers (sh : shape) (x : cell) : bool :=
+  let '(d, (a, b, w)) := sh in
+  (match fst x with SU => a | SH => b | WI => w end) && day_covers d (snd x).
+Definition shape_eqb (p q : shape) : bool :=
+  let '(d, (a, b, w)) := p in
+  let '(d', (a', b', w')) := q in
+  daytype_eqb d d' && Bool.eqb a a' && Bool.eqb b b' && Bool.eqb w w'.
+
+Lemma shape_eqb_eq : forall p q, shape_eqb p q = true <-> p = q.
+Proof.
+  intros [d [[a b] w]] [d' [[a' b'] w']].
+  destruct d, d', a, a', b, b', w, w'; cbn; split; intros H; try reflexivity; discriminate.
+Qed.
+
+Lemma covers_shape : forall c x, covers c x = shape_covers (shape_of c) x.
+Proof. intros [d g] [[] w]; reflexivity. Qed.
+
+Definition all_shapes : list shape :=
+  flat_map (fun d => flat_map (fun a => flat_map (fun b => map (fun w => (d, (a, b, w))) [true; false])
+                                                 [true; false]) [true; false]) [FW; WD; WE].
+
+Lemma all_shapes_complete : forall sh, In sh all_shapes.
+Proof.
+  intros [d [[a b] w]]. destruct d, a, b, w; cbn; repeat (first [left; reflexivity | right]).
+Qed.
+
+Definition cover_shapes (x : cell) : list shape := filter (fun sh => shape_covers sh x) all_shapes.
+
+(* the block that owns a cell: the shape of the only component covering it *)
+Definition own (s : split) (x : cell) : option shape :=
+  match filter (fun c => covers c x) s with [c] => Some (shape_of c) | _ => None end.
+Definition owns (s : split) : list (option shape) := map (own s) cells.
+
+Definition opt_shape_eqb (a b : option shape) : bool :=
+  match a, b with Some p, Some q => shape_eqb p q | None, None => true | _, _ => false end.
+
+Lemma opt_shape_eqb_eq : forall a b, opt_shape_eqb a b = true -> a = b.
+Proof.
+  intros [p|] [q|] H; cbn in H; try discriminate; [|reflexivity].
+  apply shape_eqb_eq in H. subst. reflexivity.
+Qed.
+
+(* two cells with their owners: the owner of y is the owner of x exactly when the owner of x covers y,
+   and the other way round (what an assignment of shapes to cells must satisfy to come from a
+   partition) *)
+Definition pair_ok (x : cell) (a : shape) (y : cell) (b : shape) : bool :=
+  Bool.eqb (shape_covers a y) (shape_eqb b a) && Bool.eqb (shape_covers b x) (shape_eqb a b).
+
+Definition tuple_offered (co : list (list (option shape))) (t : list shape) : bool :=
+  existsb (fun o => list_eqb opt_shape_eqb o (map Some t)) co.
+
+Definition x1 : cell := (SU, false).
+Definition x2 : cell := (SU, true).
+Definition x3 : cell := (SH, false).
+Definition x4 : cell := (SH, true).
+Definition x5 : cell := (WI, false).
+Definition x6 : cell := (WI, true).
+
+(* every pairwise-consistent assignment of covering shapes to the six cells is the assignment of some
+   candidate (inconsistent prefixes are cut off early) *)
+Definition complete_check (cands : list split) : bool :=
+  let co := map owns cands in
+  forallb (fun a1 =>
+  forallb (fun a2 => if pair_ok x1 a1 x2 a2 then
+  forallb (fun a3 => if pair_ok x1 a1 x3 a3 && pair_ok x2 a2 x3 a3 then
+  forallb (fun a4 => if pair_ok x1 a1 x4 a4 && pair_ok x2 a2 x4 a4 && pair_ok x3 a3 x4 a4 then
+  forallb (fun a5 => if pair_ok x1 a1 x5 a5 && pair_ok x2 a2 x5 a5 && pair_ok x3 a3 x5 a5
+                        && pair_ok x4 a4 x5 a5 then
+  forallb (fun a6 => if pair_ok x1 a1 x6 a6 && pair_ok x2 a2 x6 a6 && pair_ok x3 a3 x6 a6
+                        && pair_ok x4 a4 x6 a6 && pair_ok x5 a5 x6 a6 then
+    tuple_offered co [a1; a2; a3; a4; a5; a6]
+  else true) (cover_shapes x6)
+  else true) (cover_shapes x5)
+  else true) (cover_shapes x4)
+  else true) (cover_shapes x3)
+  else true) (cover_shapes x2)) (cover_shapes x1).
+
+Lemma complete_check_today : forall opts, parse_options seasonal_options = Some opts ->
+  complete_check (candidates opts) = true.
+Proof.
+  intros opts H. vm_compute in H. injection H as <-. vm_compute. reflexivity.
+Qed.
+
+Lemma exact_cover_owner : forall s, exact_cover s -> forall x,
+  exists c, filter (fun c => covers c x) s = [c] /\ In c s /\ covers c x = true.
+Proof. intros s Hs x. apply exactly_one_filter. apply Hs. Qed.
+
+Lemma pair_consistent : forall s y cx cy,
+  filter (fun c => covers c y) s = [cy] -> In cx s -> covers cy y = true ->
+  Bool.eqb (shape_covers (shape_of cx) y) (shape_eqb (shape_of cy) (shape_of cx)) = true.
+Proof.
+  intros s y cx cy Fy Hin Hy. rewrite <- covers_shape.
+  destruct (covers cx y) eqn:E.
+  - assert (H : In cx (filter (fun c => covers c y) s)) by (apply filter_In; split; assumption).
+    rewrite Fy in H. destruct H as [H|[]]. subst cx.
+    replace (shape_eqb (shape_of cy) (shape_of cy)) with true; [reflexivity|].
+    symmetry. apply shape_eqb_eq. reflexivity.
+  - destruct (shape_eqb (shape_of cy) (shape_of cx)) eqn:E2; [|reflexivity].
+    apply shape_eqb_eq in E2. rewrite covers_shape in E. rewrite <- E2 in E.
+    rewrite <- covers_shape in E. rewrite Hy in E. discriminate.
+Qed.
+
+Lemma own_of_filter : forall s x c, filter (fun c => covers c x) s = [c] -> own s x = Some (shape_of c).
+Proof. intros s x c H. unfold own. rewrite H. reflexivity. Qed.
+
+Lemma in_cover_shapes : forall c x, covers c x = true -> In (shape_of c) (cover_shapes x).
+Proof.
+  intros c x H. unfold cover_shapes. apply filter_In. split; [apply all_shapes_complete|].
+  rewrite <- covers_shape. exact H.
+Qed.
+
+Lemma pair_ok_cover : forall s x y cx cy,
+  filter (fun c => covers c x) s = [cx] -> filter (fun c => covers c y) s = [cy] ->
+  In cx s -> In cy s -> covers cx x = true -> covers cy y = true ->
+  pair_ok x (shape_of cx) y (shape_of cy) = true.
+Proof.
+  intros s x y cx cy Fx Fy Ix Iy Vx Vy. unfold pair_ok. apply andb_true_iff. split.
+  - exact (pair_consistent s y cx cy Fy Ix Vy).
+  - exact (pair_consistent s x cy cx Fx Iy Vx).
+Qed.
+
+Theorem candidates_complete_l : forall opts, parse_options seasonal_options = Some opts ->
+  forall s, exact_cover s ->
+  exists s', In s' (candidates opts) /\ forall x, own s' x = own s x.
+Proof.
+  intros opts Ho s Hs. pose proof (complete_check_today opts Ho) as CK.
+  destruct (exact_cover_owner s Hs x1) as (c1 & F1 & I1 & V1).
+  destruct (exact_cover_owner s Hs x2) as (c2 & F2 & I2 & V2).
+  destruct (exact_cover_owner s Hs x3) as (c3 & F3 & I3 & V3).
+  destruct (exact_cover_owner s Hs x4) as (c4 & F4 & I4 & V4).
+  destruct (exact_cover_owner s Hs x5) as (c5 & F5 & I5 & V5).
+  destruct (exact_cover_owner s Hs x6) as (c6 & F6 & I6 & V6).
+  unfold complete_check in CK. cbv zeta in CK.
+  rewrite forallb_forall in CK. specialize (CK _ (in_cover_shapes _ _ V1)).
+  rewrite forallb_forall in CK. specialize (CK _ (in_cover_shapes _ _ V2)).
+  rewrite (pair_ok_cover s _ _ _ _ F1 F2 I1 I2 V1 V2) in CK.
+  rewrite forallb_forall in CK. specialize (CK _ (in_cover_shapes _ _ V3)).
+  rewrite (pair_ok_cover s _ _ _ _ F1 F3 I1 I3 V1 V3), (pair_ok_cover s _ _ _ _ F2 F3 I2 I3 V2 V3) in CK.
+  cbn [andb] in CK.
+  rewrite forallb_forall in CK. specialize (CK _ (in_cover_shapes _ _ V4)).
+  rewrite (pair_ok_cover s _ _ _ _ F1 F4 I1 I4 V1 V4), (pair_ok_cover s _ _ _ _ F2 F4 I2 I4 V2 V4),
+          (pair_ok_cover s _ _ _ _ F3 F4 I3 I4 V3 V4) in CK.
+  cbn [andb] in CK.
+  rewrite forallb_forall in CK. specialize (CK _ (in_cover_shapes _ _ V5)).
+  rewrite (pair_ok_cover s _ _ _ _ F1 F5 I1 I5 V1 V5), (pair_ok_cover s _ _ _ _ F2 F5 I2 I5 V2 V5),
+          (pair_ok_cover s _ _ _ _ F3 F5 I3 I5 V3 V5), (pair_ok_cover s _ _ _ _ F4 F5 I4 I5 V4 V5) in CK.
+  cbn [andb] in CK.
+  rewrite forallb_forall in CK. specialize (CK _ (in_cover_shapes _ _ V6)).
+  rewrite (pair_ok_cover s _ _ _ _ F1 F6 I1 I6 V1 V6), (pair_ok_cover s _ _ _ _ F2 F6 I2 I6 V2 V6),
+          (pair_ok_cover s _ _ _ _ F3 F6 I3 I6 V3 V6), (pair_ok_cover s _ _ _ _ F4 F6 I4 I6 V4 V6),
+          (pair_ok_cover s _ _ _ _ F5 F6 I5 I6 V5 V6) in CK.
+  cbn [andb] in CK.
+  unfold tuple_offered in CK. apply existsb_exists in CK.
+  destruct CK as (o & Ho' & Eo). apply in_map_iff in Ho'. destruct Ho' as (s' & <- & Hs').
+  exists s'. split; [exact Hs'|].
+  unfold owns in Eo. cbn [map cells list_eqb] in Eo.
+  repeat (apply andb_true_iff in Eo; let E := fresh "E" in destruct Eo as [E Eo]).
+  intros [[] []].
+  - transitivity (Some (shape_of c2)); [apply opt_shape_eqb_eq; assumption|symmetry; exact (own_of_filter _ _ _ F2)].
+  - transitivity (Some (shape_of c1)); [apply opt_shape_eqb_eq; assumption|symmetry; exact (own_of_filter _ _ _ F1)].
+  - transitivity (Some (shape_of c4)); [apply opt_shape_eqb_eq; assumption|symmetry; exact (own_of_filter _ _ _ F4)].
+  - transitivity (Some (shape_of c3)); [apply opt_shape_eqb_eq; assumption|symmetry; exact (own_of_filter _ _ _ F3)].
+  - transitivity (Some (shape_of c6)); [apply opt_shape_eqb_eq; assumption|symmetry; exact (own_of_filter _ _ _ F6)].
+  - transitivity (Some (shape_of c5)); [apply opt_shape_eqb_eq; assumption|symmetry; exact (own_of_filter _ _ _ F5)].
+Qed.
